@@ -190,6 +190,20 @@ func c16Actors() []c16Actor {
 			})
 			e.spawn(fmt.Sprintf("X%d.cancel", k), func() { cancel() })
 		}},
+		{"Y WithTransaction with a context cancelled by another thread", func(e *c16Env, k int) {
+			ctx, cancel := context.WithCancel(context.Background())
+			e.spawn(fmt.Sprintf("Y%d", k), func() {
+				sess, _ := e.w.Client.StartSession()
+				_, err := sess.WithTransaction(ctx, func(sc lungo.ISessionContext) (interface{}, error) {
+					// (an empty transaction: the slot is taken by the begin and given back by commit or abort all the same)
+					return nil, nil
+				})
+				e.note("Y.with", err, context.Canceled)
+				// whatever the cancellation hit, the transaction is over when WithTransaction returns: the session stays open (a
+				// long-lived session), so the end-of-execution check sees a writer slot that was not given back
+			})
+			e.spawn(fmt.Sprintf("Y%d.cancel", k), func() { cancel() })
+		}},
 		{"F write while the store rejects the commit", func(e *c16Env, k int) {
 			e.spawn(fmt.Sprintf("F%d", k), func() {
 				e.w.Store.FailNext++
@@ -228,6 +242,8 @@ func c16Actors() []c16Actor {
 	}
 }
 
+var c16Runs int64
+
 // c16Run runs one scenario (a multiset of actors) under the scheduler.
 func c16Run(actors []c16Actor, prefix, expectN []int) (*sched.Result, *c16Env, []string) {
 	var env *c16Env
@@ -265,6 +281,7 @@ func c16Run(actors []c16Actor, prefix, expectN []int) (*sched.Result, *c16Env, [
 		x.OnPoint = nil
 		// end-of-execution checks
 		eng := w.Engine
+		closedByActor := env.closed
 		if !env.closed {
 			if !eng.VerifTokenFree() || eng.VerifTxn() != nil {
 				end = append(end, fmt.Sprintf("slot-not-free: after all actors finished the writer slot is free=%v, current transaction set=%v", eng.VerifTokenFree(), eng.VerifTxn() != nil))
@@ -294,6 +311,39 @@ func c16Run(actors []c16Actor, prefix, expectN []int) (*sched.Result, *c16Env, [
 		}
 		if _, err := w.C("d", "c").Watch(w.Ctx, bson.A{}); !errors.Is(err, lungo.ErrEngineClosed) {
 			end = append(end, fmt.Sprintf("after-close:Watch returned %v", err))
+		}
+		// ... through every kind of driver call, reads included (in every execution in which the engine was closed by an
+		// actor, and in every 32nd of the others: there the shutdown happens after the actors and does not depend on them)
+		if c16Runs++; closedByActor || c16Runs%32 == 0 {
+			cl := w.C("d", "c")
+			after := map[string]error{}
+			_, after["Find"] = cl.Find(w.Ctx, bD())
+			after["FindOne"] = cl.FindOne(w.Ctx, bD()).Err()
+			_, after["CountDocuments"] = cl.CountDocuments(w.Ctx, bD())
+			_, after["EstimatedDocumentCount"] = cl.EstimatedDocumentCount(w.Ctx)
+			_, after["Distinct"] = cl.Distinct(w.Ctx, "_id", bD())
+			_, after["UpdateOne"] = cl.UpdateOne(w.Ctx, bD(), bD("$set", bD("z", int32(1))))
+			_, after["DeleteMany"] = cl.DeleteMany(w.Ctx, bD())
+			after["FindOneAndDelete"] = cl.FindOneAndDelete(w.Ctx, bD()).Err()
+			_, after["Indexes.List"] = cl.Indexes().List(w.Ctx)
+			_, after["Indexes.CreateOne"] = cl.Indexes().CreateOne(w.Ctx, mongo.IndexModel{Keys: bD("z", int32(1))})
+			after["Drop"] = cl.Drop(w.Ctx)
+			_, after["ListCollectionNames"] = w.Client.Database("d").ListCollectionNames(w.Ctx, bD())
+			_, after["ListDatabaseNames"] = w.Client.ListDatabaseNames(w.Ctx, bD())
+			if sess, err := w.Client.StartSession(); err == nil {
+				after["StartTransaction"] = sess.StartTransaction()
+				sess.EndSession(w.Ctx)
+			}
+			var names []string
+			for n := range after {
+				names = append(names, n)
+			}
+			sort.Strings(names)
+			for _, n := range names {
+				if !errors.Is(after[n], lungo.ErrEngineClosed) {
+					end = append(end, fmt.Sprintf("after-close:%s returned %v", n, after[n]))
+				}
+			}
 		}
 		eng.Close() // closing twice is harmless
 		lungo.VerifForget(eng)
@@ -341,7 +391,7 @@ func init() {
 				}
 				panic(p)
 			}
-			for _, t := range [][]string{{"D", "X", "C"}, {"S", "E", "C"}, {"W", "V", "C"}, {"F", "T", "D"}, {"P", "X", "D"}, {"E", "E", "D"}, {"A", "X", "V"}, {"Q", "S", "T"}} {
+			for _, t := range [][]string{{"D", "X", "C"}, {"S", "E", "C"}, {"W", "V", "C"}, {"F", "T", "D"}, {"P", "X", "D"}, {"Q", "S", "T"}, {"Y", "D", "C"}} {
 				scs = append(scs, scen{[]int{name(t[0] + " "), name(t[1] + " "), name(t[2] + " ")}, 1})
 			}
 		}
@@ -351,7 +401,7 @@ func init() {
 			for _, k := range scs[i].idx {
 				threads++
 				switch actors[k].name[0] {
-				case 'E', 'X', 'V':
+				case 'E', 'X', 'V', 'Y':
 					threads++
 				}
 			}
